@@ -23,6 +23,7 @@ TArrive   == IsEvent("arrive") /\ ArriveCore(Ev.q, Rng(Ev.keys), Ev.names, Ev.fa
 TPop      == IsEvent("pop") /\ (CheckLocks => Ev.locked = 1) /\ PopCore(Ev.q, Ev.i, Ev.len)
 TSpin     == IsEvent("spin") /\ SpinCore
 TPeek     == IsEvent("peek") /\ PeekCore(Ev.q, Ev.key, Ev.val)
+TArgPair  == IsEvent("argpair") /\ ArgPairCore(Ev.a, Ev.b)
 TRule     == IsEvent("rule") /\ RuleRunCore(Ev.q, Ev.r, Ev.tag)
 TReturn   == IsEvent("req_end") /\ ReturnCore(Ev.q, Ev.err, Ev.vals, Ev.cv)
 TPush     == IsEvent("push") /\ (CheckLocks => Ev.locked = 1) /\ PushCore(Ev.i, Ev.len)
@@ -35,7 +36,7 @@ TUpdEnd   == IsEvent("upd_end") /\ ~Ev.panic /\ UpdEndCore(Ev.ok)
 TSetModel == IsEvent("setmodel") /\ SetModelCore(Ev.m, Ev.ok)
 TQuery    == IsEvent("query") /\ QueryCore(Ev.kind, Ev.arg, Ev.res, Ev.err)
 
-TraceProper == TSession \/ TNew \/ TArrive \/ TPop \/ TSpin \/ TPeek \/ TRule \/ TReturn \/ TPush
+TraceProper == TSession \/ TNew \/ TArrive \/ TPop \/ TSpin \/ TPeek \/ TArgPair \/ TRule \/ TReturn \/ TPush
                \/ TQuiesce \/ TFrozen \/ TUpdBegin \/ TPublish \/ TIncrMid \/ TUpdEnd \/ TSetModel \/ TQuery
 
 NextSession(i) ==
